@@ -68,6 +68,27 @@ pub fn panic_class(msg: &str) -> String {
     format!("panic: {} @ {}", t, file)
 }
 
+/// wall-clock start of the case named in the breadcrumb (0 = none); read by the watchdog thread
+pub static CASE_STARTED_MS: std::sync::atomic::AtomicU64 = std::sync::atomic::AtomicU64::new(0);
+
+pub fn now_ms() -> u64 {
+    std::time::SystemTime::now().duration_since(std::time::UNIX_EPOCH).map(|d| d.as_millis() as u64).unwrap_or(0)
+}
+
+/// A case that spins without allocating cannot be stopped by the allocation budget: a watchdog thread
+/// terminates the worker when the case named in the breadcrumb has been running for `limit_s`
+/// seconds; the supervisor attributes the death to that case like any other abort.
+pub fn start_watchdog(limit_s: u64) {
+    std::thread::spawn(move || loop {
+        std::thread::sleep(std::time::Duration::from_millis(250));
+        let t = CASE_STARTED_MS.load(std::sync::atomic::Ordering::Relaxed);
+        if t != 0 && now_ms().saturating_sub(t) > limit_s * 1000 {
+            eprintln!("WATCHDOG: the case in the breadcrumb has been running for more than {} s", limit_s);
+            std::process::abort();
+        }
+    });
+}
+
 /// draws a single step may take from the default RNG script before it is reported as a hang
 pub static DRAW_HORIZON: std::sync::atomic::AtomicUsize = std::sync::atomic::AtomicUsize::new(100_000);
 
@@ -337,6 +358,7 @@ impl Ctx {
     /// Written *before* a case runs, so that the supervisor can attribute an
     /// abort (OOM, stack overflow, kill) to it.
     pub fn crumb(&mut self, id: u64, descr: &str) {
+        CASE_STARTED_MS.store(now_ms(), std::sync::atomic::Ordering::Relaxed);
         if let Some(f) = self.breadcrumb.as_mut() {
             use std::io::{Seek, SeekFrom};
             let _ = f.seek(SeekFrom::Start(0));
